@@ -199,9 +199,13 @@ func (d *wdrv) do(op map[string]any) bool {
 		// simply retried (the scripted reader "recovers" by itself)
 		rng := newLCG(uint64(num(op["seed"])))
 		pNTL, pNil := int(num(op["pntl"])), int(num(op["pnil"]))
+		// Every successful call delivers at least one byte and every error
+		// return uses up one scripted reader fault, so a wrapper that makes
+		// progress reaches io.EOF within len(src)+len(script)+1 calls.
 		budget := int(num(op["budget"]))
-		if budget <= 0 {
-			budget = 4*len(d.rdr.src) + 64
+		limited := budget > 0
+		if !limited {
+			budget = 2*(len(d.rdr.src)+len(d.rdr.calls)) + 16
 		}
 		after := 2 // calls after EOF (sticky)
 		for budget > 0 {
@@ -226,6 +230,10 @@ func (d *wdrv) do(op map[string]any) bool {
 			default:
 				return true
 			}
+		}
+		if !limited {
+			rec.Emit(d.ev(Event{"op": "stalled", "in": "wpump"}))
+			return false
 		}
 	default:
 		panic("lzdrive: wrap: unknown op " + name)
